@@ -206,7 +206,14 @@ func TestC16Rapid(t *testing.T) {
 		_ = os.WriteFile(filepath.Join(root, "bystander.json"), otherSpec("bystander"), 0o644)
 		_ = os.MkdirAll(filepath.Join(root, "sibling"), 0o755)
 
-		cache, _ := cdi.NewCache(cdi.WithSpecDirs(dirs...), cdi.WithAutoRefresh(false))
+		// the last directory may also be listed earlier (possibly spelled differently), with the others in between:
+		// it still is the highest-priority directory
+		cfg := dirs
+		if nd > 1 && rapid.IntRange(0, 2).Draw(t, "lastAlsoFirst") == 0 {
+			cfg = append([]string{last + rapid.SampledFrom([]string{"", "/", "/."}).Draw(t, "respell")}, dirs...)
+			c.Pre = append(c.Pre, "last-directory-also-listed-first")
+		}
+		cache, _ := cdi.NewCache(cdi.WithSpecDirs(cfg...), cdi.WithAutoRefresh(false))
 		before := snapTree(root)
 		var werr error
 		if perr := catch(func() { werr = cache.WriteSpec(s, name) }); perr != nil {
@@ -274,8 +281,8 @@ func TestC16Rapid(t *testing.T) {
 			if dev == nil {
 				fail(fmt.Sprintf("%s does not resolve after writing it to the last directory (errors: %v)", q, cache.GetErrors()))
 			}
-			if dev.GetSpec().GetPath() != target || dev.GetSpec().GetPriority() != nd-1 {
-				fail(fmt.Sprintf("%s resolves to %s (priority %d), want %s (priority %d)", q, dev.GetSpec().GetPath(), dev.GetSpec().GetPriority(), target, nd-1))
+			if dev.GetSpec().GetPath() != target || dev.GetSpec().GetPriority() != len(cfg)-1 {
+				fail(fmt.Sprintf("%s resolves to %s (priority %d), want %s (priority %d)", q, dev.GetSpec().GetPath(), dev.GetSpec().GetPriority(), target, len(cfg)-1))
 			}
 			a, _ := json.Marshal(d)
 			b, _ := json.Marshal(dev.Device)
